@@ -10,7 +10,8 @@ From Coq Require Import NArith List String Bool.
 From Coq Require Import Strings.Byte.
 From PDL Require Import Base.Bits Base.Outcome Lang.Ast Lang.Sexp Analyzer.Schema Rust.Decode Rust.Runtime
      Sem.RefEncode Analyzer.Passes Proofs.DecodeSuffix Proofs.DecodeSafe Proofs.DecodeConsumes Proofs.RuntimeLaws
-     Proofs.BitfieldEncode Proofs.RoundTrip Proofs.SchemaEnums Proofs.RoundTripReal.
+     Proofs.BitfieldEncode Proofs.StaticSize Proofs.RoundTrip Proofs.SchemaEnums Proofs.RoundTripReal
+     Proofs.DecodeConverse.
 Import ListNotations.
 Open Scope N_scope.
 
@@ -72,3 +73,52 @@ Theorem C04_decoder_accepts_reference_encodings_of_bitfield_declarations :
     end.
 Proof. exact rust_decode_accepts_reference_real_schema. Qed.
 Print Assumptions C04_decoder_accepts_reference_encodings_of_bitfield_declarations.
+
+(** THE CONVERSE (Proofs/DecodeConverse.v): the decoder accepts ONLY reference encodings.
+    For a root declaration of the bit-field fragment whose widths fill whole octets (what
+    check_decl_sizes establishes) with distinct field names (check_field_identifiers): when
+    the emitted decoder succeeds on [bs], the value it returns is a value of the type, the
+    reference HAS an encoding [ss] for it, that encoding and the remainder have the length of
+    the input, they ARE the input when the declaration has no reserved bits, and in every
+    case decoding the canonical re-encoding followed by any bytes gives the same value
+    (re-encoding clears the reserved bits and is a fixpoint). *)
+Theorem C04_decoder_accepts_only_reference_encodings_of_bitfield_declarations :
+  forall (fuel fuel' : nat) (oc oc' : bool) (fl : file) (sch : schema)
+         (refrec : string -> value -> option (list seg)) (all_fields : list field)
+         (payload : list seg) (d : decl) (bs : list byte) (o : list (string * value)) (rest : list byte),
+    enum_widths_fit fl = true -> mk_schema fl = Some sch -> enums_accepted fl ->
+    get_parent fl d = None ->
+    forallb (bf_field fl) (decl_fields d) = true ->
+    frag_bits fl (decl_fields d) mod 8 = 0 ->
+    NoDup (data_ids (decl_fields d)) ->
+    rust_dec_decl (S fuel) oc fl sch d bs = Ok (VObj o, rest) ->
+    canonical_obj o (decl_fields d) /\
+    exists ss,
+      ref_enc_fields fl refrec d all_fields [] o payload (decl_fields d) 0 0 = Some ss /\
+      len (render (f_endian fl) ss) + len rest = len bs /\
+      (forallb nonres (decl_fields d) = true -> (render (f_endian fl) ss ++ rest)%list = bs) /\
+      (forall tl, gooddec (rust_dec_decl (S fuel') oc' fl sch d (render (f_endian fl) ss ++ tl))
+                          (fun r => r = (VObj o, tl))).
+Proof. exact rust_decode_accepts_only_reference_real_schema. Qed.
+Print Assumptions C04_decoder_accepts_only_reference_encodings_of_bitfield_declarations.
+
+(** ACCEPTS IFF THE REFERENCE ACCEPTS, for such declarations without reserved bits: the
+    decoder returns (o, rest) on bs exactly when o is a value of the type whose reference
+    encoding followed by rest is bs. *)
+Theorem C04_bitfield_declarations_accept_iff_reference :
+  forall (fuel : nat) (oc : bool) (fl : file) (sch : schema)
+         (refrec : string -> value -> option (list seg)) (all_fields : list field)
+         (payload : list seg) (d : decl) (bs : list byte) (o : list (string * value)) (rest : list byte),
+    enum_widths_fit fl = true -> mk_schema fl = Some sch -> enums_accepted fl ->
+    get_parent fl d = None ->
+    forallb (bf_field fl) (decl_fields d) = true ->
+    frag_bits fl (decl_fields d) mod 8 = 0 ->
+    NoDup (data_ids (decl_fields d)) ->
+    forallb nonres (decl_fields d) = true ->
+    rust_dec_decl (S fuel) oc fl sch d bs <> Panic GenAssert ->
+    (rust_dec_decl (S fuel) oc fl sch d bs = Ok (VObj o, rest)
+     <-> canonical_obj o (decl_fields d)
+         /\ exists ss, ref_enc_fields fl refrec d all_fields [] o payload (decl_fields d) 0 0 = Some ss
+                       /\ bs = (render (f_endian fl) ss ++ rest)%list).
+Proof. exact rust_dec_decl_accepts_iff_reference. Qed.
+Print Assumptions C04_bitfield_declarations_accept_iff_reference.
